@@ -13,9 +13,9 @@ RULE = ("exhaustive: every registration history of <=3 (quick) / <=4 (thorough) 
         ">=1 feature requested; distinct by (history, request).")
 ASSUMPTIONS = ["Python class identity / set / list semantics (interned as N in the model)"]
 
-UNIV = ["html", "fast", "xml"]
+UNIV = ["html", "fast", "Xml"]      # one name with a capital: feature names are compared exactly as registered
 UNKNOWN = "nosuch"
-FID = {"html": 0, "fast": 1, "xml": 2, "nosuch": 3}
+FID = {"html": 0, "fast": 1, "Xml": 2, "nosuch": 3}
 SUBSETS = [[f for i, f in enumerate(UNIV) if m >> i & 1] for m in range(8)]
 REQUESTS = [list(r) for n in range(4) for r in itertools.product(UNIV + [UNKNOWN], repeat=n)]
 
@@ -127,12 +127,12 @@ def check_batch(ctx, hists, reqs, nodup_oracle=True):
 def constructor_cases(ctx):
     """Constructor decision on a harness registry swapped into bs4 for the duration."""
     rng = ctx.rng
-    hists = [[], [(0, ["html"])], [(0, ["html", "fast"]), (1, ["html"])], [(0, ["xml"])],
-             [(0, ["html"]), (1, ["fast"])], [(0, ["html", "fast"]), (1, ["xml"]), (2, ["html", "fast", "xml"])]]
+    hists = [[], [(0, ["html"])], [(0, ["html", "fast"]), (1, ["html"])], [(0, ["Xml"])],
+             [(0, ["html"]), (1, ["fast"])], [(0, ["html", "fast"]), (1, ["Xml"]), (2, ["html", "fast", "Xml"])]]
     for _ in range(20 if not ctx.thorough else 200):
         hists.append([(i, rng.choice(SUBSETS)) for i in range(rng.randint(0, 4))])
-    feature_args = [None, [], "html", "fast", "xml", "nosuch", ["html", "fast"], ["xml", "nosuch"],
-                    ["nosuch"], ["fast", "xml"], ("html",)]
+    feature_args = [None, [], "html", "fast", "Xml", "nosuch", ["html", "fast"], ["Xml", "nosuch"],
+                    ["nosuch"], ["fast", "Xml"], ("html",)]
     kwargs_list = [{}, {"multi_valued_attributes": None}]
     saved = bs4.builder_registry
     default = list(bs4.BeautifulSoup.DEFAULT_BUILDER_FEATURES)
